@@ -331,6 +331,19 @@ func init() {
 		"Uint32": sym(types.Uint32),
 		"Uint8":  sym(types.Uint8),
 		"Bool":   sym(types.Bool),
+		"Matches": func(fr *frame, a []value) value {
+			if isSymStr(a[0]) {
+				return boolTerm(regexMatchTerm(str(a[1]), strTerm(a[0])))
+			}
+			return regexp.MustCompile(str(a[1])).MatchString(str(a[0]))
+		},
+		"HasPrefix": func(fr *frame, a []value) value {
+			if isSymStr(a[0]) || isSymStr(a[1]) {
+				return boolTerm("(str.prefixof " + strTerm(a[1]) + " " + strTerm(a[0]) + ")")
+			}
+			return strings.HasPrefix(str(a[0]), str(a[1]))
+		},
+		"Str":    func(fr *frame, a []value) value { return fr.i.pm.freshStr(str(a[0])) },
 		"Choose": func(fr *frame, a []value) value {
 			return fr.i.pm.choose(int(asInt64(a[1])), "Choose:"+str(a[0]))
 		},
